@@ -171,7 +171,15 @@ def seq_of(eng, v):
     if isinstance(v, I.Arr):
         if v.ndim == 0:
             raise I.PyRaise("TypeError", ("iteration over a 0-d array",))
-        return LazySeq(v.shape[0], lambda i, v=v: M.getitem(eng, v, i), kind="array")
+        def row(i, v=v):
+            # iteration protocol: positions handed to item() lie in [0, length) by construction -- no bounds obligation per element
+            saved = eng.obligations
+            eng.obligations = []
+            try:
+                return M.getitem(eng, v, i)
+            finally:
+                eng.obligations = saved
+        return LazySeq(v.shape[0], row, kind="array")
     if isinstance(v, (list, tuple)):
         items = list(v)
         return LazySeq(len(items), lambda i: M.select_const(i, [lambda x=x: x for x in items]) if T.is_sym(i) else items[i])
